@@ -16,6 +16,7 @@ class Proc:
         self.state = "running"     # running | req | blk | dead
         self.msg = None            # (kind, call, path)
         self.blk_epoch = -1
+        self.granted_as = None
         self.steps = 0
 
 
@@ -32,15 +33,27 @@ class Scheduler:
         self.lsock.bind(sockpath)
         self.lsock.listen(16)
         self.procs = []
-        self.epoch = 0
+        self._epoch = 0
+        self.noop = set()          # blocked processes whose last re-poll changed nothing: not enabled until somebody makes progress
         self.decisions = []        # (n_enabled, chosen_index, [labels])
         self.steps = []            # (key, call, path) in execution order
         self.consecutive = (None, 0)
 
+    @property
+    def epoch(self):
+        return self._epoch
+
+    @epoch.setter
+    def epoch(self, v):
+        """external progress (the driver wrote to a pipe, started a process, ...): every blocked process may re-poll"""
+        self._epoch = v
+        self.noop.clear()
+
     def close(self):
         for p in self.procs:
             try:
-                p.conn.close()
+                if p.conn is not None:
+                    p.conn.close()
             except OSError:
                 pass
         self.procs = []
@@ -51,12 +64,13 @@ class Scheduler:
 
     def _pump(self, timeout):
         """read whatever the processes sent; accept new connections"""
-        rl = [self.lsock] + [p.conn for p in self.procs if p.state != "dead"]
+        rl = [self.lsock] + [p.conn for p in self.procs if p.state != "dead" and not getattr(p, "conn_closed", False)]
         r, _, _ = select.select(rl, [], [], timeout)
         for s in r:
             if s is self.lsock:
                 c, _ = self.lsock.accept()
                 self.procs.append(Proc(c))
+                self.noop.clear()
                 continue
             p = next(x for x in self.procs if x.conn is s)
             try:
@@ -64,7 +78,16 @@ class Scheduler:
             except (ConnectionResetError, OSError):
                 d = b""
             if not d:
+                if p.state == "execing":
+                    # the old image's connection closed on exec: the new image is running until it connects (or the pid dies)
+                    p.conn_closed = True
+                    try:
+                        s.close()
+                    except OSError:
+                        pass
+                    continue
                 p.state = "dead"
+                self.noop.discard(p)
                 self.epoch += 1
                 try:
                     s.close()
@@ -78,19 +101,52 @@ class Scheduler:
                 if len(f) < 5:
                     continue
                 kind, pid, key, call, path = f
+                if kind == "EXE":
+                    p.pid, p.key = int(pid), key
+                    p.state = "execing"
+                    continue
+                if kind == "FRK":
+                    child = Proc(None)
+                    child.pid, child.key, child.state, child.conn_closed = int(path), key, "execing", True
+                    if not any(o.pid == child.pid and o.state != "dead" for o in self.procs):
+                        self.procs.append(child)
+                    continue
+                # a new image of a process that announced an exec: the old entry is replaced
+                for o in self.procs:
+                    if o is not p and o.state == "execing" and o.pid == int(pid):
+                        o.state = "dead"
                 p.pid, p.key = int(pid), key
-                p.msg = (kind, call, sandbox.unesc(path))
+                newmsg = (kind, call, sandbox.unesc(path))
+                pure_noop = (p.granted_as == "BLK" and kind == "BLK" and p.msg is not None and newmsg == p.msg)
+                p.msg = newmsg
                 if kind == "REQ":
                     p.state = "req"
+                    self.noop.clear()          # it ran ungated code (pipe writes, ...) before asking again
                 else:
                     p.state = "blk"
-                    p.blk_epoch = self.epoch
-                if p.steps:
-                    pass
+                    if not pure_noop:
+                        self.noop.clear()
+                    self.noop.add(p)
+                p.granted_as = None
         return bool(r)
 
     def running(self):
-        return [p for p in self.procs if p.state == "running"]
+        out = []
+        for p in self.procs:
+            if p.state == "running":
+                out.append(p)
+            elif p.state == "execing":
+                try:
+                    os.kill(p.pid, 0)
+                    alive = open("/proc/%d/stat" % p.pid).read().split(")")[-1].split()[0] != "Z"
+                except (ProcessLookupError, FileNotFoundError, PermissionError):
+                    alive = False
+                if alive:
+                    out.append(p)
+                else:
+                    p.state = "dead"
+                    self.noop.clear()
+        return out
 
     def settle(self):
         """wait until no gated process is running (each is waiting for us, or dead)"""
@@ -102,20 +158,21 @@ class Scheduler:
 
     def enabled(self):
         out = [p for p in self.procs if p.state == "req"]
-        out += [p for p in self.procs if p.state == "blk" and (p.blk_epoch < self.epoch or p.msg[1] in ("read", "waitpid", "flock"))]
+        out += [p for p in self.procs if p.state == "blk" and p not in self.noop]
         return sorted(out, key=lambda p: (p.key or "", p.pid or 0))
 
     def grant(self, p):
         self.steps.append((p.key, p.msg[1], p.msg[2], p.msg[0]))
         was_req = p.state == "req"
+        p.granted_as = p.msg[0]
+        if was_req:
+            self.noop.clear()
         p.state = "running"
         p.steps += 1
         try:
             p.conn.send(b"G")
         except OSError:
             p.state = "dead"
-        if was_req:
-            self.epoch += 1       # a real step happened: blocked processes may retry
         self.settle()
 
     def alive(self, keypart):
